@@ -121,13 +121,24 @@ def gen_recursive_doc(rng):
     has a base alternative or sits under an array that may be empty"""
     leaf = lambda: rng.choice([{"type": "integer", "minimum": rng.randint(0, 3)}, {"type": "string"}, {"enum": ["a", "b"]}, {"type": "boolean"}, {}])
     tgt = rng.choice(["#", "#/$defs/T", "#/$defs/U"])
-    shape = rng.choice(["optprop", "items", "items0", "prefix", "anyof-base", "mutual", "nested-array", "ref-siblings", "cons", "cons0"])
+    shape = rng.choice(["optprop", "items", "items0", "prefix", "anyof-base", "mutual", "nested-array", "ref-siblings", "cons", "cons0", "wrapped-ref", "wrapped-ref"])
     T = {"type": "object", "properties": {"v": leaf()}}
     U = {"type": "array", "items": leaf()}
     if shape == "optprop":
         T["properties"]["child"] = {"$ref": tgt}
         if rng.random() < 0.5:
             T["required"] = ["v"]
+    elif shape == "wrapped-ref":
+        # the recursive reference sits inside a combinator at a property, next to a sibling without any reference
+        comb = rng.choice(["anyOf", "anyOf", "oneOf"])
+        nxt = {comb: [{"$ref": tgt}, {"type": "null"}]}
+        sib = rng.choice(["not", "then", "else"])
+        if sib == "not":
+            nxt["not"] = {"type": "array"}
+        else:
+            nxt["if"] = {"type": "string"}
+            nxt[sib] = {"minLength": 1}
+        T["properties"]["next"] = nxt
     elif shape == "items":
         T["properties"]["kids"] = {"type": "array", "items": {"$ref": tgt}}
     elif shape == "items0":
